@@ -72,11 +72,11 @@ def pipe_consts(trees, qnames, maxops, net='P_NetSmall', contents='{"x", ""}', s
 
 # ------------------------------------------------------------------ stage A
 
-def tlc_jobs(ctx, jobs, par):
+def tlc_jobs_start(ctx, jobs, par):
     """jobs: [(label, consts, x)]: x['invs'] / x['props'] / x['view'] are checked; if x['names'] is there the run also
     collects the witnesses and the actions taken (WCollect / WPost of SchemaTree.tla, one worker) and `names` must be
-    reachable.  The TLC runs are independent processes: `par` at a time, results handled in order."""
-    import re
+    reachable.  The TLC runs are independent processes (and independent of the library under test): `par` at a time, in
+    the background while stages B and C drive the library; tlc_jobs_finish handles the results in order."""
     from concurrent.futures import ThreadPoolExecutor
 
     def one(i, job):
@@ -88,9 +88,17 @@ def tlc_jobs(ctx, jobs, par):
         tlc.write_cfg(cfgp, constants=c, invariants=list(x.get('invs', ())) + (['WCollect'] if wit else []),
                       properties=x.get('props', ()), view=x.get('view'), postcondition='WPost' if wit else None)
         return tlc.run('SchemaTreeMC', cfgp, workers=1 if wit else x.get('workers', 4), heavy=not wit, timeout=2400, tag='x02a%d' % i)
-    with ThreadPoolExecutor(max_workers=par) as ex:
-        futs = [ex.submit(one, i, j) for i, j in enumerate(jobs)]
+    ex = ThreadPoolExecutor(max_workers=par)
+    return ex, [ex.submit(one, i, j) for i, j in enumerate(jobs)]
+
+
+def tlc_jobs_finish(ctx, jobs, started):
+    import re
+    ex, futs = started
+    try:
         results = [f.result() for f in futs]
+    finally:
+        ex.shutdown(wait=True)
     cov = collections.Counter()
     for (label, consts, x), r in zip(jobs, results):
         ctx.add_tlc('SchemaTree ' + label, r)
@@ -112,10 +120,14 @@ def tlc_jobs(ctx, jobs, par):
             if a not in untaken:
                 cov[a] += 1
         ctx.note('A %s: %d witnesses reachable' % (label, len(x['names'])))
-    return cov
+    for a in ACTIONS:
+        if cov[a] == 0:
+            raise tlc.MachineryError('vacuous: SchemaTree action %s never taken in the witness configurations' % a)
+    ctx.note('A: every action taken (number of witness configurations in which it is: %s)' %
+             ', '.join('%s %d' % (a, cov[a]) for a in ACTIONS))
 
 
-def stage_a(ctx):
+def stage_a_jobs(ctx):
     q = ctx.quick
     w = ctx.pick(4, 8)
     jobs = []
@@ -143,7 +155,7 @@ def stage_a(ctx):
                  dict(reg, MaxPol=2, MaxNodes=2, MaxKeyLen=1, QNames='<- R_QNamesB', MaxOps=1), {'invs': INV_RUN, 'names': W_REG}))
     # P: pipelines on the prepared trees
     for i, (trees, names) in enumerate((('P_Trees1', 'P_QNames1'), ('P_Trees2', 'P_QNames2'), ('P_Trees3', 'P_QNames3'))):
-        jobs.append(('P: tree %d, 2 operations' % (i + 1), pipe_consts(trees, names, 2, QueryOn='FALSE', net='P_Net'),
+        jobs.append(('P: tree %d, 2 operations' % (i + 1), pipe_consts(trees, names, 2, QueryOn='FALSE', net=ctx.pick('P_NetSmall', 'P_Net')),
                      {'invs': INV_RUN, 'props': ['CacheMonotone'], 'names': W_PIPE_BY_TREE[i]}))
         if not q:
             jobs.append(('P: tree %d, 3 operations' % (i + 1), pipe_consts(trees, names, 3, QueryOn='FALSE', net='P_NetSmall'),
@@ -159,12 +171,7 @@ def stage_a(ctx):
     if not q:
         jobs.append(('S: SegmentedNode / LocalResource, 3 operations', dict(segc, MaxOps=3),
                      {'invs': INV_RUN, 'props': ['CacheMonotone'], 'workers': w}))
-    cov = tlc_jobs(ctx, jobs, ctx.pick(5, 4))
-    for a in ACTIONS:
-        if cov[a] == 0:
-            raise tlc.MachineryError('vacuous: SchemaTree action %s never taken in the witness configurations' % a)
-    ctx.note('A: every action taken (number of witness configurations in which it is: %s)' %
-             ', '.join('%s %d' % (a, cov[a]) for a in ACTIONS))
+    return jobs
 
 
 # ------------------------------------------------------------------ stage B
@@ -397,7 +404,7 @@ def stage_b(ctx, recs):
     graphs.append(('T tree building', dict(tb, MaxNodes=2, MaxKeyLen=ctx.pick(1, 2)), 0.3))
     if not ctx.quick:
         graphs.append(('T tree building with SegmentedNode / LocalResource',
-                       dict(tb, Keys='<- S_Keys', Kinds='{"node", "seg", "local"}', RootPrefixes='<- None', MaxNodes=3, MaxKeyLen=1), 0.3))
+                       dict(tb, Keys='<- S_Keys', Kinds='{"node", "seg", "local"}', RootPrefixes='<- None', MaxNodes=2, MaxKeyLen=2), 0.3))
     reg = dict(Keys='<- R_Keys', PolChoices='<- R_Pol', AttachPrefixes='<- R_Prefixes', QNames='<- R_QNamesB', QueryOn='FALSE')
     if ctx.quick:
         graphs.append(('R registration', dict(reg, MaxPol=1, MaxNodes=2, MaxKeyLen=1, MaxOps=0), 0.1))
@@ -418,7 +425,7 @@ def stage_b(ctx, recs):
     for (label, consts, pq), g in zip(graphs, dumped):
         t1 = time.time()
         ctx.add_tlc('SchemaTree graph %s (%d states, %d edges)' % (label, len(g.state), g.n_edges), g.tlc)
-        paths, left = state_cover_paths(g, 40, ctx.rng, max_paths=ctx.pick(None, 25000))
+        paths, left = state_cover_paths(g, 40, ctx.rng, max_paths=ctx.pick(None, 12000))
         if left:
             ctx.note('B %s: path budget reached, %d of %d states not visited' % (label, left, len(g.state)))
         steps = 0
@@ -439,7 +446,7 @@ def stage_b(ctx, recs):
     # the paths were compared with the TLC states directly; the trace judge is needed for the query calls sprinkled over them
     withq = [r for r in brecs if any(e['call'][0].startswith('Q') for e in r['ev'])]
     ctx.rng.shuffle(withq)
-    keep = withq[:ctx.pick(250, 6000)]
+    keep = withq[:ctx.pick(250, 3000)]
     recs += keep
     ctx.note('B: %d replayed paths carry query calls (%d calls); %d of them go to the trace judge' %
              (len(withq), sum(1 for r in withq for e in r['ev'] if e['call'][0].startswith('Q')), len(keep)))
@@ -649,7 +656,7 @@ class Driver:
 
 
 def stage_c(ctx, recs):
-    n = ctx.pick(150, 3000)
+    n = ctx.pick(150, 2500)
     for i in range(n):
         d = Driver(ctx.rng, big=(i % 3 != 0))
         rec, err = d.run()
@@ -733,13 +740,19 @@ def run(ctx):
                        "method", 'the digest component of an Interest is identified by (parameters, signer)',
                        'deviations modelled as coded: AttachNoPrefix, EmptySearch, SegNoParent (see SchemaTree.tla)']
     recs = []
+    jobs = started = None
     if 'A' in ctx.stages:
-        stage_a(ctx)
-    if 'B' in ctx.stages:
-        stage_b(ctx, recs)
-    if 'C' in ctx.stages:
-        stage_c(ctx, recs)
-    judge_and_report(ctx, recs)
+        jobs = stage_a_jobs(ctx)
+        started = tlc_jobs_start(ctx, jobs, ctx.pick(5, 3))
+    try:
+        if 'B' in ctx.stages:
+            stage_b(ctx, recs)
+        if 'C' in ctx.stages:
+            stage_c(ctx, recs)
+        judge_and_report(ctx, recs)
+    finally:
+        if started:
+            tlc_jobs_finish(ctx, jobs, started)
 
 
 def replay(ctx, path):
